@@ -256,7 +256,7 @@ def parse_const(c):
     m = re.search(r'::promoted\[(\d+)\]$', c)
     if m:
         return ('promoted', int(m.group(1)))
-    if re.match(r'^(char::MAX|core::char::MAX|std::char::MAX)$', c):
+    if re.match(r'^(char::MAX|core::char::MAX|std::char::MAX|std::char::methods::<impl char>::MAX|core::char::methods::<impl char>::MAX)$', c):
         return ('int', 32, 0x10FFFF, False)
     if re.match(r'^(u32::MAX|core::u32::MAX)$', c):
         return ('int', 32, 0xFFFFFFFF, False)
@@ -502,11 +502,12 @@ def _find_assign(s):
 
 class Fn:
     __slots__ = ('name', 'key', 'nargs', 'blocks', 'locals', 'self_type', 'ret_type', 'arg_types',
-                 'kind', 'promoted_of', 'promoted_idx', 'text_line')
+                 'kind', 'promoted_of', 'promoted_idx', 'text_line', 'debug')
 
     def __init__(self):
         self.blocks = {}
         self.locals = {}
+        self.debug = {}
         self.kind = 'fn'
         self.promoted_of = None
         self.promoted_idx = None
@@ -594,6 +595,9 @@ def parse_mir(text):
                 md = re.match(r'^debug self => _1;$', s)
                 if md and f.arg_types:
                     f.self_type = f.arg_types[0]
+                md = re.match(r'^debug (\w+) => _(\d+);$', s)
+                if md:
+                    f.debug.setdefault(md.group(1), int(md.group(2)))
             i += 1
         fns.append(f)
         i += 1
